@@ -26,7 +26,7 @@ VARIANT_PINS = {
     (GET, "NAV-AOPSTATUS"): ("NAV-AOPSTATUS", ("lenne", [20])),
     (GET, "NAV-RELPOSNED-V0"): ("NAV-RELPOSNED", ("byte", 0, 0)),
     (GET, "NAV-RELPOSNED"): ("NAV-RELPOSNED", ("bytene", 0, [0])),
-    (SET, "TIM-VCOCAL-V0"): ("TIM-VCOCAL", ("len", 1)),
+    (SET, "TIM-VCOCAL-V0"): ("TIM-VCOCAL", ("byte", 0, 0)),
     (SET, "TIM-VCOCAL"): ("TIM-VCOCAL", ("lenne", [1])),
     (SET, "CFG-DAT-NUM"): ("CFG-DAT", ("len", 2)),
     (SET, "CFG-DAT"): ("CFG-DAT", ("lenne", [2])),
